@@ -109,6 +109,14 @@ def run_one(prop, case, st):
         st.decline("recursion-limit(no verdict)")
         _reset_interpretation_stack()
         return None
+    except MemoryError:
+        # the worker's address space is capped (VERIF_MEM_GB); a case that needs more is inconclusive
+        st.decline("memory-limit(no verdict)")
+        _reset_interpretation_stack()
+        import gc
+
+        gc.collect()
+        return None
     except Violation as v:
         return v
     except Decline as d:
@@ -150,6 +158,13 @@ def worker(args):
 
     np.seterr(all="ignore")
     assert_repo_funsor()
+    try:
+        import resource
+
+        cap = int(float(os.environ.get("VERIF_MEM_GB", "3")) * 2**30)
+        resource.setrlimit(resource.RLIMIT_AS, (cap, cap))
+    except Exception:  # noqa: BLE001
+        pass
     import hypothesis
     from hypothesis import HealthCheck, Phase, given, settings
 
